@@ -157,7 +157,7 @@ func (g *FaultGen) Carrier() Carrier {
 	case 2:
 		return Carrier{Stmt: boom, Where: "call depth 1"}
 	case 3:
-		n := []int{1, 2, 5, 40, 129, 300}[g.pick(6)]
+		n := []int{1, 2, 5, 40, 129, 300, 1025, 4097, 20000}[g.pick(9)] // past 1k, 4k and 16k frames as well: thresholds a stack policy might use
 		return Carrier{Stmt: fmt.Sprintf("ga = 1 + down(%d, %d, %d)", n, c, k), Where: fmt.Sprintf("call depth %d", n+1), Deep: true}
 	case 4:
 		return Carrier{Stmt: fmt.Sprintf("app(boom, %d, %d)", c, k), Where: "through a parameter holding a function", Deep: true}
